@@ -18,7 +18,7 @@ fn type_ident(t: &mut Tape) -> String {
 
 pub fn exotic_type(t: &mut Tape, depth: usize) -> String {
     if depth == 0 {
-        return t.choose(&["i32", "String", "&str", "&'static str", "()", "!", "Self", "bool", "u128", "f32", "char", "usize", "str", "_"]).to_string();
+        return t.choose(&["i32", "String", "&str", "&'static str", "()", "!", "Self", "bool", "u128", "f32", "char", "usize", "str", "_", "Größe", "名前", "Été", "User", "crate::models::Größe", "λ"]).to_string();
     }
     let d = depth - 1;
     match t.pick(28) {
